@@ -109,6 +109,15 @@ Definition py_list_op (o : lop) (l : list atom) : list atom + N :=
   end.
 
 (* ---- a history ---- *)
+(* what can be done while a save() is unanswered *)
+Inductive dop :=
+| DAssign (name : bytes) (v : pyval)
+| DListOp (name : bytes) (o : lop)
+| DRead (name : bytes)
+| DNeedsSave
+| DSave                                         (* another config.save(), answered after the first *)
+| DEvent (items : list (bytes * option bytes)).
+
 Inductive op :=
 | OpAssign (name : bytes) (v : pyval)           (* config.<name> = v *)
 | OpListOp (name : bytes) (o : lop)             (* config.<name>.<op>(...) : applied to what a read returns *)
@@ -117,7 +126,10 @@ Inductive op :=
 | OpNeedsSave                                   (* config.needs_save() *)
 | OpEvent (items : list (bytes * option bytes)) (* Tor sends 650 CONF_CHANGED: Key=Value / Key lines *)
 | OpSocks                                       (* config.socks_endpoint(reactor) *)
-| OpCopy (dst src : bytes).                     (* config.<dst> = config.<src>: the object a read of <src> returns is assigned *)
+| OpCopy (dst src : bytes)                      (* config.<dst> = config.<src>: the object a read of <src> returns is assigned *)
+(* config.save() returns its Deferred; the operations of [during] are performed while the SETCONF is
+   unanswered; then Tor answers every outstanding SETCONF, in order, 250 OK (None) or <code> *)
+| OpSaveDuring (reject : option N) (during : list dop).
 
 (* ---- observations ---- *)
 (* what a read returned: a scalar, or a list (is it a tracked list; str() of each element) *)
@@ -129,6 +141,13 @@ Inductive sres := SOk | SFail (code : N) | SErr (k : N) | SNotFired | SRaised (k
 
 Inductive sockres := SockTcp (host : bytes) (port : N) | SockUnix (path : bytes) | SockExc (k : N).
 
+(* result of an operation performed while a save is unanswered *)
+Inductive ires :=
+| IOk | IRaised (k : N) | IVal (v : rval) | IBool (b : bool)
+| ISent                                          (* save() returned a Deferred (fired or not) *)
+| ISaveRaised (k : N)                            (* save() raised *)
+| IEvent (needs_save : bool) (snap : list rres).
+
 Inductive ores :=
 | XOk
 | XRaised (k : N)
@@ -136,7 +155,10 @@ Inductive ores :=
 | XBool (b : bool)
 | XSaved (r : sres) (needs_save : bool) (snap : list rres)    (* snapshot: every option, table order *)
 | XEvent (needs_save : bool) (snap : list rres)
-| XSocks (r : sockres).
+| XSocks (r : sockres)
+(* OpSaveDuring: the result of each operation of [during]; the outcome of every save() call (the
+   first one, then each DSave, in call order) once everything is answered; needs_save(); snapshot *)
+| XFlight (inner : list ires) (outs : list sres) (needs_save : bool) (snap : list rres).
 
 Record obs := { o_wrote : list bytes;      (* complete lines written on the transport during the op *)
                 o_res : ores }.
@@ -166,6 +188,15 @@ Definition sockres_eqb (a b : sockres) : bool :=
   | SockExc x, SockExc y => x =? y
   | _, _ => false
   end.
+Definition ires_eqb (a b : ires) : bool :=
+  match a, b with
+  | IOk, IOk | ISent, ISent => true
+  | IRaised x, IRaised y | ISaveRaised x, ISaveRaised y => x =? y
+  | IVal x, IVal y => rval_eqb x y
+  | IBool x, IBool y => Bool.eqb x y
+  | IEvent n s, IEvent n' s' => Bool.eqb n n' && list_eqb rres_eqb s s'
+  | _, _ => false
+  end.
 Definition ores_eqb (a b : ores) : bool :=
   match a, b with
   | XOk, XOk => true
@@ -175,7 +206,32 @@ Definition ores_eqb (a b : ores) : bool :=
   | XSaved r n s, XSaved r' n' s' => sres_eqb r r' && Bool.eqb n n' && list_eqb rres_eqb s s'
   | XEvent n s, XEvent n' s' => Bool.eqb n n' && list_eqb rres_eqb s s'
   | XSocks x, XSocks y => sockres_eqb x y
+  | XFlight i o n s, XFlight i' o' n' s' =>
+      list_eqb ires_eqb i i' && list_eqb sres_eqb o o' && Bool.eqb n n' && list_eqb rres_eqb s s'
   | _, _ => false
+  end.
+(* an operation performed during a flight, as the ordinary operation it is (DSave is none) *)
+Definition op_of_dop (d : dop) : option op :=
+  match d with
+  | DAssign n v => Some (OpAssign n v)
+  | DListOp n o => Some (OpListOp n o)
+  | DRead n => Some (OpRead n)
+  | DNeedsSave => Some OpNeedsSave
+  | DEvent items => Some (OpEvent items)
+  | DSave => None
+  end.
+(* ... and its result as the result of that ordinary operation *)
+Definition ores_of_ires (r : ires) : option ores :=
+  match r with
+  | IOk => Some XOk | IRaised k => Some (XRaised k) | IVal v => Some (XVal v) | IBool b => Some (XBool b)
+  | IEvent n s => Some (XEvent n s)
+  | ISent | ISaveRaised _ => None
+  end.
+Definition ires_of_ores (r : ores) : option ires :=
+  match r with
+  | XOk => Some IOk | XRaised k => Some (IRaised k) | XVal v => Some (IVal v) | XBool b => Some (IBool b)
+  | XEvent n s => Some (IEvent n s)
+  | _ => None
   end.
 Definition obs_eqb (a b : obs) : bool :=
   list_eqb beqb (o_wrote a) (o_wrote b) && ores_eqb (o_res a) (o_res b).
